@@ -33,6 +33,7 @@ type c09Scenario struct {
 	Pattern []int       `json:"pattern"`
 	Procs   int         `json:"gomaxprocs"`
 	StallMS int         `json:"stall_ms"` // the server stops reading for this long (Config.Timeout is 20 ms then); 0 never
+	Toggler bool        `json:"toggler"`  // another goroutine switches state tracking on and off on the live client meanwhile
 }
 
 func genC09(t *rapid.T) *c09Scenario {
@@ -52,6 +53,7 @@ func genC09(t *rapid.T) *c09Scenario {
 		}
 		sc.Senders = append(sc.Senders, s)
 	}
+	sc.Toggler = rapid.IntRange(0, 2).Draw(t, "toggler") == 0
 	if rapid.IntRange(0, 4).Draw(t, "stall") == 0 {
 		sc.StallMS = rapid.SampledFrom([]int{30, 60, 120}).Draw(t, "stall_ms")
 	}
@@ -160,6 +162,29 @@ func runC09(sc *c09Scenario) *Violation {
 				}
 			}
 		}()
+	}
+	if sc.Toggler {
+		stopToggle := make(chan struct{})
+		var tw sync.WaitGroup
+		tw.Add(1)
+		go func() {
+			defer tw.Done()
+			for i := 0; ; i++ {
+				select {
+				case <-stopToggle:
+					return
+				default:
+				}
+				if i%2 == 0 {
+					tc.C.EnableStateTracking()
+				} else {
+					tc.C.DisableStateTracking()
+				}
+				_ = tc.C.Connected()
+				runtime.Gosched()
+			}
+		}()
+		defer func() { close(stopToggle); tw.Wait() }()
 	}
 	total := 0
 	for g := range sc.Senders {
